@@ -564,7 +564,7 @@ class PyReach:
                 nk = B.state_key(nxt, gfe)
                 if nk in self.states:
                     continue
-                if len(self.states) >= cap:
+                if len(self.states) >= cap or B.too_big(nk):
                     self.complete = False
                     queue = []
                     break
@@ -1107,6 +1107,9 @@ def run(ctx):
     out = {"defs": {}, "npi": 0, "relax_examples": [], "replay": [], "oracle": [], "fails": [], "stats": Counter(),
            "coq_state_cap": 120 if ctx.quick else 500, "relax_len": 3 if ctx.quick else 4, "relax_cap": 12 if ctx.quick else 40}
     import time
+    import faulthandler
+    import signal
+    faulthandler.register(signal.SIGUSR1)       # `kill -USR1 <pid>` prints where a slow run is
     out["times"] = {}
     t0 = time.time()
     n_over = 36 if ctx.quick else 300
